@@ -2,8 +2,8 @@
 
 One op, `hist`: arg = [cfg, ops, wf] with cfg = [width, is_terminal, color_system 0..3, legacy_windows],
 ops = the calls to make (see TAGS), wf = 1 when the generator intends the history to satisfy the
-hypotheses of the text theorems (printed text free of escape/control characters, control strings made
-of complete escape sequences).
+hypotheses of the text theorems (printed text free of escape/control characters; control strings and the
+text of control segments, styled or not, made of complete escape sequences).
 
 impl() performs the calls on a real `Console(record=True, file=io.StringIO(), ...)` and returns
     [style table, filled ops, observations, twin writes]
@@ -71,9 +71,8 @@ def rsegs(rng, wf):
         r = rng.random()
         if r < 0.12:
             pool = CONTROLS_OK if (wf or rng.random() < 0.5) else CONTROLS_BAD
-            style = [] if (wf or rng.random() < 0.7) else [rng.randint(0, NPAL - 1)]
-            if wf and rng.random() < 0.3:
-                style = [0]      # null style on a control segment is allowed (it is falsy)
+            # control segments may carry a style (Segment.control(text, style), Segment.make_control)
+            style = [] if rng.random() < 0.6 else [rng.randint(0, NPAL - 1)]
             segs.append([s2t(rng.choice(pool)), style, 1])
         else:
             r2 = rng.random()
